@@ -13,7 +13,7 @@ REPO = os.environ.get("VERIF_REPO", "/repo")
 ROOT = os.environ.get("VERIF_BUILD_ROOT") or os.path.join(os.environ.get("TMPDIR", "/var/tmp"), "whatshap-verif-build")
 PY = os.environ.get("VERIF_PYTHON", "/venv/bin/python")
 HERE = os.path.dirname(os.path.abspath(__file__))
-KEEP = int(os.environ.get("VERIF_BUILD_KEEP", "6"))
+KEEP = int(os.environ.get("VERIF_BUILD_KEEP", "16"))
 
 
 class BuildError(Exception):
